@@ -177,6 +177,8 @@ pub enum Obj {
     Path(String),
     /// any path in the sandbox that is not one of the three standard streams
     AnyFile,
+    /// any path starting with this prefix (absolute, or relative to the root)
+    Prefix(String),
 }
 
 #[derive(Clone, Debug, Serialize, Deserialize, PartialEq, Eq)]
